@@ -369,6 +369,23 @@ func (f *anteFixture) runAnteCell(c AnteCell) (*Failure, string, bool) {
 				if _, m, _ := decodeEthBlockTx(n, pr.Txs[0]); m == nil {
 					// engine hiccup under load: the SDK falls back to the raw mempool list; not this property's subject
 					label += "/prepare-fallback"
+				} else {
+					// the block message this node has just built, followed by the crafted transaction, comes back as a proposal
+					pp, err := n.Process(blk.ProcessReq([][]byte{pr.Txs[0], raw}))
+					if err != nil {
+						return failf("no-crash", "process-failed", "%s: %v", desc, err), label, admitted
+					}
+					accept := pp.Status == abci.ResponseProcessProposal_ACCEPT
+					want := admitted && !stale
+					for _, u := range urlsInTx {
+						if u == ethBlockURL {
+							want = false
+						}
+					}
+					if accept != want {
+						return failf("admission", admissionSig(want, urlsInTx, modeProcess), "%s: ProcessProposal of [own block message, this transaction] accept=%v, predicate says %v", desc, accept, want), label, admitted
+					}
+					label += "/own-proposal-extended"
 				}
 			}
 		}
@@ -484,7 +501,7 @@ func TestC10_Combos(t *testing.T) {
 			return c
 		},
 		Run: runAnteCase,
-		Rule: "generated sequences of 4-24 crafted transactions on one live chain: single- and multi-message transactions (pairs/triples mixing allowed and forbidden types, the block message beside others), multi-signer transactions, memos, timeouts, signature faults, every signer class, all five modes (prepare through CheckTx + the real proposal builder); evaluations count transactions",
+		Rule: "generated sequences of 4-24 crafted transactions on one live chain: single- and multi-message transactions (pairs/triples mixing allowed and forbidden types, the block message beside others), multi-signer transactions, memos, timeouts, signature faults, every signer class, all five modes (prepare through CheckTx + the real proposal builder, whose block message followed by the crafted transaction is then given back to ProcessProposal); evaluations count transactions",
 	})
 }
 
